@@ -30,6 +30,11 @@
         (forall|i: int| 0 <= i < task.tal.uris_spec().len() ==>
             !ta_usable(self, task.tal, &#[trigger] task.tal.uris_spec()[i]))
             ==> (res is Ok ==> !self.initial),
+        // C33: a TAL task that ends in an error has marked the run as failed. Run::process stops the worker
+        // on Err and fails the run only when had_err is set: an Err exit that does not set it turns a run in
+        // which a fatal error was logged into a "successful" one whose (partial) result is then served
+        res is Err ==> final(clk).failed,
+        old(clk).failed ==> final(clk).failed,
 //@ afterinit 1
         let ghost all = iter_1.remaining();
         let ghost mut k: int = 0;
@@ -46,6 +51,8 @@
                 iter_1.obeys_prophetic_iter_laws(), iter_1.decrease() is Some,
                 (task.index as int) < self.validation.tals@.len(),
                 *task.tal == self.validation.tals@[task.index as int],
+                // C33: the failure flag is never cleared
+                old(clk).failed ==> clk.failed,
             decreases iter_1.decrease()->Some_0,
 //@ global
 // C10: "bound to the TAL": a parentless CA certificate whose resource
